@@ -553,8 +553,36 @@ struct Runner {
   PictID bogusId() { PictID x = 1; while (w.find(x) != nullptr || oss().Contains(x)) ++x; return x; }
 
   // ---- invariants -------------------------------------------------------------------------------------------
+  // the user-defined equations of every operation: the library may drop an equation whose constituent vanished and
+  // re-key the rest when a parent is executed again, but the mode and the term argument the user chose never change
+  std::map<PictID, std::multiset<std::pair<int, std::string>>> userEquations;
+  std::set<PictID> equationsJustSet;
+  Verdict equationsKept(const std::string& at) {
+    for (auto& p : w.picts) {
+      if (!p.isOp) continue;
+      const auto* oh = oss().Ops()(p.id);
+      const auto* eq = oh == nullptr ? nullptr : dynamic_cast<const EquationOptions*>(oh->options.get());
+      std::multiset<std::pair<int, std::string>> cur;
+      if (eq != nullptr) for (const auto& [key, value] : *eq) { const auto& pr = eq->PropsFor(key); cur.insert({static_cast<int>(pr.mode), pr.arg}); }
+      auto it = userEquations.find(p.id);
+      if (it == userEquations.end() || equationsJustSet.count(p.id)) { userEquations[p.id] = cur; continue; }
+      auto rest = it->second;
+      for (const auto& e : cur) {
+        auto f = rest.find(e);
+        CHECK(f != rest.end(), "equation-properties-changed", "operation " + std::to_string(p.id) + " now holds an equation with mode " + std::to_string(e.first) + " / term '" + e.second + "' that the user never defined" + at);
+        rest.erase(f);
+      }
+      if (cur.size() != it->second.size()) c.count("observed:equations-dropped-with-their-constituents");
+      else if (!cur.empty()) c.count("checked:equation-properties-kept");
+      it->second = cur;
+    }
+    equationsJustSet.clear();
+    return pbt::pass();
+  }
+
   Verdict invariants(const std::string& after) {
     const std::string at = " (after " + after + ")";
+    TRY(equationsKept(at));
     CHECK(oss().size() == w.picts.size(), "picts-count", "size=" + std::to_string(oss().size()) + " model " + std::to_string(w.picts.size()) + at);
     std::set<PictID> iterated;
     for (const auto& p : oss()) { CHECK(iterated.insert(p.uid).second, "picts-iteration", "pictogram iterated twice" + at); }
@@ -908,6 +936,7 @@ struct Runner {
     }
     const auto before = dump();
     const bool ok = oss().Ops().InitFor(mp.id, type, std::move(opts));
+    if (ok) equationsJustSet.insert(mp.id);
     if (!mp.isOp) CHECK(!ok, "init-base", "InitFor accepted a base pictogram");
     if (o.opType == 4) CHECK(!ok, "init-no-table", "InitFor accepted a synthesis without an equation table");
     if (!ok) CHECK(dump() == before, "refused-changes", "refused InitFor changed the schema");
